@@ -10,6 +10,12 @@ Stages
      Richardson step, for every element class x differentiable parameter x beam type x tracking method x outgoing-beam
      quantity, incl. the exactly-zero points, 2-4 element segments and beam parameters.
   4. known findings (F6, F7, F60, F61, F62, F63, F64) are classified by signature; anything else is a violation.
+     A signature suppresses a failure only while known_findings.json lists that finding with status `known` for C05.  Once a
+     finding is flipped to `fixed` (F62: Dipole.__init__ registered fringe_integral_exit with torch.tensor(...), a detached copy,
+     so its gradient was always None; repaired by torch.as_tensor) its signature suppresses nothing: the gradient must exist and
+     match finite differences (forced Dipole / RBend cases with an effective exit fringe are generated in every run), and the
+     stored input of the finding is replayed as a regression test (fails again -> VIOLATION with that input).  A finding listed
+     `known` whose stored input no longer fails is noted as stale, without alarm.
 
 case = {"lattice": [elem, ...],              elem = {"cls": str, "kw": {name: float | [float, float] | other}}
         "beam": realgen beam spec,
@@ -292,8 +298,24 @@ def _method(e):
     return e["kw"].get("tracking_method", "cheetah")
 
 
+KNOWN_IDS = None        # ids listed with status `known` for C05 (read once per run)
+
+
+def known_ids():
+    global KNOWN_IDS
+    if KNOWN_IDS is None:
+        KNOWN_IDS = {f["id"] for f in common.load_known_findings(PID) if f.get("status") == "known"}
+    return KNOWN_IDS
+
+
 def classify(case, res):
-    """id of the known finding whose signature the failing case matches, else None"""
+    """id of the finding LISTED AS KNOWN whose signature the failing case matches, else None (fixed entries suppress nothing)"""
+    fid = signature(case, res)
+    return fid if fid in known_ids() else None
+
+
+def signature(case, res):
+    """id of the finding whose signature (class, parameter, predicate on the point, observable) the failing case matches, else None"""
     bad = res["bad"]
     kinds = {b["kind"] for b in bad}
     w = case["wrt"]
@@ -455,6 +477,29 @@ def gen_single_cases(rng, reps):
 SEG_CLASSES = ["Drift", "Quadrupole", "Dipole", "Solenoid", "HorizontalCorrector", "VerticalCorrector", "Cavity", "Undulator", "RBend"]
 
 
+def gen_fringe_exit_cases(rng):
+    """forced cases for the parameter of finding F62: Dipole / RBend built WITH fringe_integral_exit, exit fringe switched on and a
+    non-zero gap, so that outgoing quantities really depend on it (the random cases often have gap = 0 or fringe_at without the
+    exit face, where every derivative is 0 and a missing gradient goes unnoticed); alone and behind a drift inside a Segment"""
+    cases = []
+    for cls in ("Dipole", "RBend"):
+        for btype, method in (("parameter", "cheetah"), ("particle", "cheetah"), ("particle", "bmadx")):
+            e = "dipole_e" if cls == "Dipole" else "rbend_e"
+            kw = dict(length=rng.choice([0.5, 1.0]), angle=rng.choice([0.1, -0.3, 0.05]), k1=rng.choice([0.0, 0.5]) if method == "cheetah" else 0.0,
+                      tilt=rng.choice([0.0, 0.1]), gap=rng.choice([0.02, 0.035]), gap_exit=rng.choice([0.02, 0.03]),
+                      fringe_integral=0.5, fringe_integral_exit=rng.choice([0.4, 0.3, 0.0]), fringe_at=rng.choice(["both", "exit"]),
+                      tracking_method=method)
+            kw[e + "1"] = rng.choice([0.0, 0.05])
+            kw[e + "2"] = rng.choice([0.05, -0.1])
+            seg = rng.random() < 0.5
+            lat = [{"cls": cls, "kw": kw}]
+            if seg:
+                lat.insert(0, {"cls": "Drift", "kw": dict(length=0.5, tracking_method="cheetah")})
+            cases.append({"lattice": lat, "beam": gen_beam(rng, btype, energy=rng.choice([2e7, 1e8])), "wrt": ["elem", len(lat) - 1, "fringe_integral_exit", None],
+                          "segment": seg, "zero_point": False, "forced": "fringe_integral_exit"})
+    return cases
+
+
 def gen_segment_cases(rng, n):
     cases = []
     for _ in range(n):
@@ -533,6 +578,12 @@ def run_oracle(run, cases):
         run.count("oracle_param_" + tag)
         if case.get("zero_point"):
             run.count("oracle_zero_points")
+        if case.get("forced") == "fringe_integral_exit":
+            run.count("fringe_integral_exit_forced_cases")
+            if res.get("n_dependent", 0) > 0:
+                run.count("fringe_integral_exit_outputs_depend_on_it")
+                if res["status"] == "ok":
+                    run.count("fringe_integral_exit_gradient_present_and_equal_to_finite_differences")
         if res["status"] == "mismatch":
             fid = classify(case, res)
             (known if fid else viol).append((case, res, fid))
@@ -964,15 +1015,31 @@ def replay_dict(case, res, extra=None):
 
 
 def replay_known(run):
+    """replays the stored input of every listed finding.  known + still failing with its signature -> KNOWN-FINDING; known + passing
+    -> note (the status is stale); fixed + failing again -> VIOLATION (regression) with that input.  Returns the ids that regressed."""
+    regressed = set()
     for f in common.load_known_findings(PID):
-        if f.get("status") != "known":
+        case = f.get("replay")
+        if not case or "lattice" not in case:
             continue
-        case = f["replay"]
         res, exc = _try(lambda: compare(case))
-        if exc is None and res["status"] == "mismatch" and classify(case, res) == f["id"]:
-            run.known(f["what"])
-        else:
-            run.cov["known_findings_not_reproduced"].append(f["id"])
+        if f.get("status") == "known":
+            if exc is None and res["status"] == "mismatch" and classify(case, res) == f["id"]:
+                run.known(f["what"])
+            else:
+                run.cov["known_findings_not_reproduced"].append(f["id"])
+                if exc is None and res["status"] == "ok":
+                    run.notes.append(f"{f['id']} is listed known but its stored input passes (autograd equals finite differences on all "
+                                     f"{res.get('n_dependent')} dependent outputs): the status of {f['id']} is stale (flip it to fixed)")
+        elif f.get("status") == "fixed":
+            run.cov.setdefault("fixed_findings_replayed", []).append(f["id"])
+            failed = exc is not None or res["status"] == "mismatch"
+            if failed and f["id"] not in regressed:
+                regressed.add(f["id"])
+                res = res or {"bad": [{"output": "*", "autograd": exc, "fd": None, "tol": None, "kind": "exception"}]}
+                run.violation(replay_dict(case, res, {"kind": "regression", "finding": f["id"],
+                                                      "what": f"fixed finding {f['id']} fails again on its stored input: " + f["what"]}))
+    return regressed
 
 
 def main(tier, replay=None):
@@ -994,8 +1061,11 @@ def main(tier, replay=None):
     ok, log = common.coq_build("theories/Optics/DerivTac.vo")
     broken, results = ([{"why": "coq build of Optics/DerivTac.vo failed: " + log[-800:]}], []) if not ok else correspondence(run, 120 if thorough else 12)
 
+    run.cov["findings_listed_known"] = sorted(known_ids())
     cases = gen_single_cases(run.rng, 12 if thorough else 1) + gen_segment_cases(run.rng, 800 if thorough else 40) \
         + gen_beam_param_cases(run.rng, 400 if thorough else 30)
+    for _ in range(4 if thorough else 1):
+        cases += gen_fringe_exit_cases(run.rng)
     viol, known = run_oracle(run, cases)
     # failing inputs around a broken correspondence point
     if broken and not viol:
@@ -1013,7 +1083,9 @@ def main(tier, replay=None):
         seen.setdefault(fid, 0)
         seen[fid] += 1
     run.cov["known_finding_hits"] = seen
-    replay_known(run)
+    regressed = replay_known(run)
+    # failures explained by a regression just reported with the finding's stored input
+    viol = [(case, res, fid) for case, res, fid in viol if signature(case, res) not in regressed]
     run.cov["tested_only"] = [
         "that torch.autograd returns the Coq-proved derivative: sampled points only (interval correspondence + finite differences)",
         "Bmad-X tracking, Cavity (voltage != 0), TransverseDeflectingCavity, SpaceChargeKick, CustomTransferMap, Dipole/RBend with edges, "
